@@ -1,7 +1,7 @@
 (* C08 - Annotations name exactly the requirers and their constraints.  Statements and `exact` only. *)
 From Coq Require Import List String Bool NArith.
 From RC Require Import lib.Pep440 lib.Name model.Merge model.Graph model.Solver model.Explain model.Check
-                       proofs.GraphP proofs.CheckP proofs.WitnessSolver proofs.SolverStatements.
+                       proofs.GraphP proofs.CheckP proofs.WitnessSolver proofs.SolverStatements proofs.HonestP.
 Import ListNotations.
 Open Scope string_scope.
 
@@ -32,3 +32,39 @@ Theorem C08_stale_requirer_input_now_fails_honestly :
   | CNoCand _ nm sp => (nm, List.length sp) | COk _ _ => ("<ok>", 0) | CFatal _ => ("<fatal>", 0) end = ("e", 1).
 Proof. exact c08_stale_requirer_now_fails_witness. Qed.
 Print Assumptions C08_stale_requirer_input_now_fails_honestly.
+
+(* "A requirer that was abandoned during solving never appears" is FALSE of the faithful model - and of the code: four
+   mechanisms survive into a SUCCESSFUL compile (HonestP; W1, W2, W4 replay on /repo and are listed findings):
+   W1 a dependency cycle keeps an abandoned project indexed (a-2.0 requires x, x requires itself and a<2: a is re-solved as
+   1.0 and annotated "via x"); W2 a walk-back re-solves the conflict project from a stale node object and leaves a solved
+   node nobody requires; W3 a project solved only through an unpinned constraint file (the property counts constraint sources
+   as requirers - listed for completeness); W4 a late extra expands and then discards a solved project, and a node handed
+   back by add_dist is re-created as an orphan. *)
+Theorem C08_refuted_abandoned_requirer_named :
+  ~ (forall fuel e u inputs cons rc md ob_all ob extras g roots,
+       perform_compile_stack_x fuel e u inputs cons rc md ob_all ob extras = COk g roots -> explain_honest g roots) /\
+  ~ variant false true true true /\ ~ variant true true true false /\ ~ variant true true false true /\ ~ variant true false true true.
+Proof.
+  split; [exact compile_success_not_honest_refuted|]. split; [exact honest_without_acyclicity_refuted|].
+  split; [exact honest_with_walkback_refuted|]. split; [exact honest_with_constraints_refuted|exact honest_with_extras_refuted].
+Qed.
+Print Assumptions C08_refuted_abandoned_requirer_named.
+
+(* The strongest variant that is true, proved for all such runs: acyclic universes (a rank on project keys that every
+   requirement decreases), no extras, no constraint files, no walk-back in the trace - each of the four hypotheses is shown
+   necessary above.  With a downgrade budget of 0 the hypothesis on the trace follows from the inputs. *)
+Theorem C08_no_abandoned_requirer_acyclic_plain :
+  forall rank top fuel e u inputs rc md ob_all ob g roots,
+  ranked_stack rank u -> ranked_inputs rank top inputs -> plain_stack u -> plain_inputs inputs ->
+  perform_compile_stack_x fuel e u inputs None rc md ob_all ob [] = COk g roots -> no_walkback g ->
+  explain_honest g roots.
+Proof. exact compile_success_honest_acyclic_plain. Qed.
+Print Assumptions C08_no_abandoned_requirer_acyclic_plain.
+
+Theorem C08_no_abandoned_requirer_without_downgrades :
+  forall rank top fuel e u inputs rc ob_all ob g roots,
+  ranked_stack rank u -> ranked_inputs rank top inputs -> plain_stack u -> plain_inputs inputs ->
+  perform_compile_stack_x fuel e u inputs None rc (Some 0) ob_all ob [] = COk g roots ->
+  explain_honest g roots.
+Proof. exact compile_success_honest_no_downgrade. Qed.
+Print Assumptions C08_no_abandoned_requirer_without_downgrades.
